@@ -213,6 +213,8 @@ structure Pre (m m0 : Mach) : Prop where
   dict : m0.dict = m.dict
   codeLen : m0.code.length = m.code.length
   code : (∀ name, m.code[m.ctx.ip]? ≠ some (.resolve name)) → m0.code = m.code
+  /-- inside a meta block even a `Resolve` leaves the code alone -/
+  codeMeta : m.ctx.mode = .metaEval → m0.code = m.code
   meterLo : m.meter < m0.meter
   meterHi : m0.meter ≤ m.meter + 2
   meterLim : ∀ N, m.insnLimit = some N → m0.meter ≤ N
@@ -248,7 +250,9 @@ theorem meterIncrease_fail (m : Mach) : (∃ m1, m.meterIncrease = (.ok (), m1))
 inductive StepShape (np : String → Option Prog) (m : Mach) (r : R Unit) : Prop where
   | early (h : r.2.core = m.core) (hl : r.2.log = m.log) (ne : r.1 ≠ .ok ())
       (hm : m.meter ≤ r.2.meter ∧ r.2.meter ≤ m.meter + 1) (hN : ∀ N, m.insnLimit = some N → m.meter ≤ N → r.2.meter ≤ N)
-      (lims : r.2.stackLimit = m.stackLimit ∧ r.2.insnLimit = m.insnLimit) : StepShape np m r
+      (lims : r.2.stackLimit = m.stackLimit ∧ r.2.insnLimit = m.insnLimit)
+      (rest : r.2.dict = m.dict ∧ r.2.heapLimit = m.heapLimit ∧ r.2.code.length = m.code.length ∧
+        (m.ctx.mode = .metaEval → r.2.code = m.code)) : StepShape np m r
   | exec (m0 : Mach) (p : Pre m m0) (s : Shape m0 r) : StepShape np m r
 
 theorem step_shape (np : String → Option Prog) (m : Mach) (w : WF m) :
@@ -260,19 +264,19 @@ theorem step_shape (np : String → Option Prog) (m : Mach) (w : WF m) :
     rcases meterIncrease_fail m with ⟨m2, h2⟩ | h2
     · rw [h2] at hm; cases hm
     · rw [hm] at h2; simp only at h2; subst h2
-      exact .early rfl rfl (by simp) ⟨Nat.le_refl _, Nat.le_succ _⟩ (fun _ _ h => h) ⟨rfl, rfl⟩
+      exact .early rfl rfl (by simp) ⟨Nat.le_refl _, Nat.le_succ _⟩ (fun _ _ h => h) ⟨rfl, rfl⟩ ⟨rfl, rfl, rfl, fun _ => rfl⟩
   · rename_i e m1 hm
     rcases meterIncrease_fail m with ⟨m2, h2⟩ | h2
     · rw [h2] at hm; cases hm
     · rw [hm] at h2; simp only at h2; subst h2
-      exact .early rfl rfl (by simp) ⟨Nat.le_refl _, Nat.le_succ _⟩ (fun _ _ h => h) ⟨rfl, rfl⟩
+      exact .early rfl rfl (by simp) ⟨Nat.le_refl _, Nat.le_succ _⟩ (fun _ _ h => h) ⟨rfl, rfl⟩ ⟨rfl, rfl, rfl, fun _ => rfl⟩
   · rename_i m1 hm
     obtain ⟨e1, hlt1⟩ := meterIncrease_ok _ _ hm
     subst e1
     have early1 : ∀ (o : Outcome Unit), o ≠ .ok () → StepShape np m (o, { m with meter := m.meter + 1 }) :=
-      fun o ho => .early rfl rfl ho ⟨by simp, by simp⟩ (fun N hN' _ => by have := hlt1 N hN'; simp; omega) ⟨rfl, rfl⟩
+      fun o ho => .early rfl rfl ho ⟨by simp, by simp⟩ (fun N hN' _ => by have := hlt1 N hN'; simp; omega) ⟨rfl, rfl⟩ ⟨rfl, rfl, rfl, fun _ => rfl⟩
     have pre1 : Pre m { m with meter := m.meter + 1 } :=
-      ⟨rfl, rfl, rfl, rfl, rfl, rfl, rfl, fun _ => rfl, by simp, by simp, fun N hN' => by have := hlt1 N hN'; simp; omega⟩
+      ⟨rfl, rfl, rfl, rfl, rfl, rfl, rfl, fun _ => rfl, fun _ => rfl, by simp, by simp, fun N hN' => by have := hlt1 N hN'; simp; omega⟩
     split
     · exact early1 _ (by simp)
     · rename_i name hop
@@ -280,22 +284,24 @@ theorem step_shape (np : String → Option Prog) (m : Mach) (w : WF m) :
       · exact early1 _ (by simp)
       · exact early1 _ (by simp)
       · rename_i op hres
+        obtain ⟨cp, hcp, hcl, hcm⟩ := patchCode_eq { m with meter := m.meter + 1 } m.ctx.ip op
+        rw [hcp]
         split
         · rename_i e m2 hm2
-          rcases meterIncrease_fail { m with meter := m.meter + 1, code := (m.code.set m.ctx.ip op) } with ⟨m3, h3⟩ | h3
+          rcases meterIncrease_fail { m with meter := m.meter + 1, code := cp } with ⟨m3, h3⟩ | h3
           · rw [h3] at hm2; cases hm2
           · rw [hm2] at h3; simp only at h3; subst h3
-            exact .early rfl rfl (by simp) ⟨by simp, by simp⟩ (fun N hN' _ => by have := hlt1 N hN'; simp; omega) ⟨rfl, rfl⟩
+            exact .early rfl rfl (by simp) ⟨by simp, by simp⟩ (fun N hN' _ => by have := hlt1 N hN'; simp; omega) ⟨rfl, rfl⟩ ⟨rfl, rfl, by simpa using hcl, fun hm => by simpa using hcm hm⟩
         · rename_i e m2 hm2
-          rcases meterIncrease_fail { m with meter := m.meter + 1, code := (m.code.set m.ctx.ip op) } with ⟨m3, h3⟩ | h3
+          rcases meterIncrease_fail { m with meter := m.meter + 1, code := cp } with ⟨m3, h3⟩ | h3
           · rw [h3] at hm2; cases hm2
           · rw [hm2] at h3; simp only at h3; subst h3
-            exact .early rfl rfl (by simp) ⟨by simp, by simp⟩ (fun N hN' _ => by have := hlt1 N hN'; simp; omega) ⟨rfl, rfl⟩
+            exact .early rfl rfl (by simp) ⟨by simp, by simp⟩ (fun N hN' _ => by have := hlt1 N hN'; simp; omega) ⟨rfl, rfl⟩ ⟨rfl, rfl, by simpa using hcl, fun hm => by simpa using hcm hm⟩
         · rename_i m2 hm2
           obtain ⟨e2, hlt2⟩ := meterIncrease_ok _ _ hm2
           subst e2
-          have pre2 : Pre m { m with meter := m.meter + 1 + 1, code := (m.code.set m.ctx.ip op) } :=
-            ⟨rfl, rfl, rfl, rfl, rfl, rfl, by simp, fun hno => absurd hop (hno name), by simp; omega, by simp, fun N hN' => by have := hlt2 N hN'; simp at this ⊢; omega⟩
+          have pre2 : Pre m { m with meter := m.meter + 1 + 1, code := cp } :=
+            ⟨rfl, rfl, rfl, rfl, rfl, rfl, by simpa using hcl, fun hno => absurd hop (hno name), fun hm => by simpa using hcm hm, by simp; omega, by simp, fun N hN' => by have := hlt2 N hN'; simp at this ⊢; omega⟩
           exact .exec _ pre2 (exec_shape np _ op (pre2.wf w))
     · rename_i op _ hop
       exact .exec _ pre1 (exec_shape np _ op (pre1.wf w))
